@@ -6,7 +6,7 @@ PROP = {'tables': ['C17'], 'n_quick': 240,
  'rule': 'addresses: (quick) every witness version 0..16 with program lengths 0..3, 19..21, 31..33, 39..42 and a random quarter of the other lengths, network '
          "and blinding drawn at random, plus n random well-formed addresses of every kind incl. the crate's constructors; (thorough) the full lattice 3 "
          'networks x blinded x {p2pkh, p2sh, version 0..16 x length 0..42, versions 17/24/31}; near-miss strings: upper/mixed case, one character '
-         'replaced/dropped/appended, wrong checksum variant, other checksum family, versions 17..31, bad/missing blinding key, bad padding, foreign HRP, '
+         'replaced/dropped/appended, every mixed case pattern of the human-readable part (2^len patterns x lower/upper data part) of every generated segwit address, wrong checksum variant, other checksum family, versions 17..31, bad/missing blinding key, bad padding, foreign HRP, '
          'over-long, base58 with wrong length/prefix/inner prefix/blinder/checksum, > 150 characters; distinct = distinct case line; non-trivial = non-empty '
          'string',
  'trusted': ['the bech32/bech32m constants and limits are transcribed by hand from the upstream bech32-0.11.1 crate; blech32 constants, witness-length limits, '
@@ -24,7 +24,7 @@ TEXT = {'text': 'Kernel-checked, for every hash function (returning >= 4 bytes w
          'sweep over the nine version bytes x two payload lengths showing a displayed base58check text never starts like a built-in HRP); parsing then '
          'displaying returns the lower-case segwit string / the base58check string itself for every accepted string (C06_canonical; via checksum '
          'uniqueness, 5->8->5 regrouping under the padding rules, both letter cases of the character set, encode58(decode58 s) = s); two built-in networks '
-         'never accept the same string (C06_one_network, no residual case); every parsed address has a 20-byte hash or a '
+         'never accept the same string (C06_one_network, no residual case); a string with letters of both cases anywhere, HRP included, never parses as a segwit address (C06_mixed_case_rejected); every parsed address has a 20-byte hash or a '
          'version<=16 program of 2..40 bytes (20|32 for v0) with the checksum variant its version requires (C06_parsed_shape); FromStr is parse_with_params '
          'of one built-in network. Finding F5 (blinded v1+ address with a 0/1-byte program) is repaired in 86be616; the model is the repaired from_bech32, its two former witnesses are rejected (C06_F5_witnesses_rejected) and a re-appearance is a VIOLATION. Character-for-character agreement of the model encoders with the '
          "crate's Display and with independent encoders is the per-run correspondence check.",
